@@ -259,7 +259,9 @@ def write_evidence(pid, tier, seed, t0, units, kani, violations, known, undecide
         obligations += k.get("obligations", [])
     discharged = [o for o in obligations if o["status"] == "discharged"]
     bounded = [o for o in obligations if o["status"] == "bounded-ok"]
-    counted = [o for o in obligations if o["status"] in ("discharged", "failed")]
+    known_names = {k["obligation"] for k in known}
+    # obligations matched by a recorded finding are reported (known_findings_matched / failed) but not claimed as proved
+    counted = [o for o in obligations if o["status"] in ("discharged", "failed") and o["name"] not in known_names]
     assumptions = []
     for u in units:
         for a in u["assumptions"]:
